@@ -90,7 +90,7 @@ fn observe(ctx: &mut Ctx, p: *const u8, expected: V, total: usize) {
 }
 
 fn run(ctx: &mut Ctx) {
-    let max_total: usize = if ctx.quick() && ctx.dev_profile() { 4096 + 16 } else { (1 << 20) + 16 };
+    let max_total: usize = if ctx.quick() && ctx.dev_profile() { 4096 + 16 } else if ctx.quick() || ctx.dev_profile() { (1 << 20) + 16 } else { (8 << 20) + 16 };
     ctx.bound(
         "space",
         format!(
